@@ -128,6 +128,11 @@ def build_iter(j: Dict[str, Any], slots):
         from data_algebra.OrderedSet import OrderedSet
 
         return OrderedSet(items), _dedupe(items), None
+    if kind in ("dict", "dictkeys"):
+        d = {}
+        for x in items:
+            d.setdefault(x, len(d))
+        return (d if kind == "dict" else d.keys()), list(d), None
     raise ValueError(kind)
 
 
@@ -201,7 +206,7 @@ EVIL_ARM_OK = ("add", "discard", "remove", "contains", "update", "ior", "new", "
 
 
 def _gen_iter(r, pool_idx, allow_fault: bool, kinds=None, allow_slot=True) -> Dict[str, Any]:
-    kinds = kinds or ["list", "list", "tuple", "gen", "set", "frozenset", "oset", "slot"]
+    kinds = kinds or ["list", "list", "tuple", "gen", "set", "frozenset", "oset", "slot", "dict", "dictkeys"]
     kind = r.choice(kinds)
     if kind == "slot" and not allow_slot:
         kind = "list"
@@ -215,6 +220,9 @@ def _gen_iter(r, pool_idx, allow_fault: bool, kinds=None, allow_slot=True) -> Di
     items = [POOL_JSON[i] for i in idx]
     if kind in ("set", "frozenset"):
         items = [e for e in items if e["t"] not in ("str",)]
+    if kind in ("dict", "dictkeys"):
+        # a keys view is a Set: Set-mixin operators may route through plain sets, whose order for str is hash-seed salted
+        items = [e for e in items if e["t"] not in ("evil", "str")]
     j: Dict[str, Any] = {"kind": kind, "items": items}
     if allow_fault and kind in ("list", "gen"):
         j["fail_after"] = r.randrange(len(items) + 1)
